@@ -266,6 +266,94 @@ def run_monitor(cases, obs, out):
 
 # ---------------------------------------------------------------- observation lines
 
+def _coq_bytes(tok):
+    b = bytes.fromhex(tok[1:])
+    return '[' + '; '.join(str(x) for x in b) + ']'
+
+
+def _coq_headers(toks, i):
+    nh = int(toks[i]); i += 1
+    hs = []
+    for _ in range(nh):
+        name = _coq_bytes(toks[i]); nv = int(toks[i + 1]); i += 2
+        vals = [_coq_bytes(toks[i + j]) for j in range(nv)]
+        i += nv
+        hs.append('(%s, [%s])' % (name, '; '.join(vals)))
+    return '[' + '; '.join(hs) + ']', i
+
+
+def kernel_crosscheck(cases_p, model_p, n, workdir):
+    """The extracted model against the kernel: the first n sequential cases are written as Gallina terms, evaluated by
+    vm_compute inside coqc, and the projected observations compared with what the extracted OCaml model printed.
+    Returns (checked, problems)."""
+    cases, order = load_cases(cases_p)
+    model = load_obs(model_p)
+    chosen = []
+    defs = []
+    for cid in order:
+        if len(chosen) >= n:
+            break
+        lines = cases[cid].splitlines()
+        head = lines[0].split()
+        if head[0] != 'CASE' or head[2] != 'M' or cid not in model or any(o['res'] == 'U' for o, _ in model[cid]):
+            continue
+        reqs, script = [], []
+        for l in lines[1:]:
+            t = l.split()
+            if not t:
+                continue
+            if t[0] == 'REQ':
+                h, _ = _coq_headers(t, 4)
+                reqs.append('mkreq (%s) %s %s %s' % (t[1], _coq_bytes(t[2]), _coq_bytes(t[3]), h))
+            elif t[0] == 'REP':
+                i = 2
+                reps = []
+                for _ in range(2):
+                    kind, status, bodyok = t[i], t[i + 1], t[i + 2]
+                    h, i = _coq_headers(t, i + 3)
+                    reps.append('RErr' if kind == 'E' else
+                                'RResp {| p_status := %s; p_hdr := %s; p_body := 0; p_body_ok := %s |}' % (status, h, 'true' if bodyok == '1' else 'false'))
+                script.append('((%s), %s, %s)' % (t[1], reps[0], reps[1]))
+        name = 'case_%d' % len(chosen)
+        defs.append('Definition %s := run_case (%s) (%s) [%s] [%s].\nEval vm_compute in %s.\n' %
+                    (name, head[3], head[4], '; '.join(reqs), '; '.join(script), name))
+        chosen.append(cid)
+    if not chosen:
+        return 0, []
+    src = ('From HC Require Import Transport Run.\nOpen Scope Z_scope.\n'
+           'Definition mkreq (gap : Z) (m u : bytes) (h : headers) : option (Z * request) :=\n'
+           '  match parse_url u with Some ((url, true), true) => Some (gap, {| q_method := m; q_url := url; q_hdr := h |}) | _ => None end.\n'
+           'Fixpoint all_some {X} (l : list (option X)) : option (list X) :=\n'
+           '  match l with [] => Some [] | Some x :: r => option_map (cons x) (all_some r) | None :: _ => None end.\n'
+           'Definition proj (o : exchange_obs) :=\n'
+           '  (x_t0 o, x_t1 o, match x_result o with Done (OResp r) => (1, p_status r, p_body r) | Done OErr => (2, 0, 0) | Done OPanic => (3, 0, 0) | Crashed => (3, 0, 0) | OutOfModel => (4, 0, 0) end,\n'
+           '   Z.of_nat (List.length (x_events o)), Z.of_nat (List.length (x_bg_events o))).\n'
+           'Definition run_case (cfg t0 : Z) (reqs : list (option (Z * request))) (script : list (Z * origin_reply * origin_reply)) :=\n'
+           '  match all_some reqs with Some rs => map proj (run_history {| cfg_swr_timeout := cfg |} rs (init_world t0 script)) | None => [] end.\n'
+           + ''.join(defs))
+    vdir = os.path.join(workdir, 'kernel')
+    os.makedirs(vdir, exist_ok=True)
+    open(os.path.join(vdir, 'cases.v'), 'w').write(src)
+    with Lock('coq'):
+        rc, out, err = sh(['timeout', '900', 'coqc', '-Q', os.path.join(COQ, 'theories'), 'HC', 'cases.v'], cwd=vdir, timeout=1000)
+    if rc != 0:
+        return 0, ['coqc failed on the generated cases.v: ' + (out + err)[-600:]]
+    blocks = re.split(r'\n\s*= ', '\n' + out)[1:]
+    problems = []
+    if len(blocks) != len(chosen):
+        return 0, ['expected %d results from coqc, got %d' % (len(chosen), len(blocks))]
+    code = {'R': 1, 'E': 2, 'P': 3, 'U': 4}
+    for cid, blk in zip(chosen, blocks):
+        nums = [int(x) for x in re.findall(r'-?\d+', blk.split(': list')[0])]
+        want = []
+        for o, _ in model[cid]:
+            want += [o['t0'], o['t1'], code[o['res']], o.get('status', 0) if o['res'] == 'R' else 0, o.get('body', 0) if o['res'] == 'R' else 0,
+                     len(o['fg']), len(o['bg'])]
+        if nums != want:
+            problems.append('case %s: the kernel computes %s, the extracted model printed %s' % (cid, nums[:40], want[:40]))
+    return len(chosen), problems
+
+
 def unhex(t):
     return bytes.fromhex(t[1:]).decode('latin1')
 
@@ -532,6 +620,14 @@ def e2e_engine(pid, spec, tier, seed, workdir, res):
         impl = load_obs(impl_p)
         model = load_obs(model_p)
         mon = load_monitor(mon_p)
+        # the extraction itself: a sample of the cases re-evaluated by the kernel (vm_compute) and compared with the OCaml model
+        kn = 150 if tier == 'thorough' else 12
+        if not res['extra'].get('kernel_crosscheck'):
+            checked, kprob = kernel_crosscheck(cases_p, model_p, kn, out)
+            res['extra']['kernel_crosscheck'] = dict(cases=checked, problems=kprob[:5],
+                                                     what='run_history evaluated by vm_compute inside coqc on the same cases; compared with the extracted OCaml model: instants, outcome, status, body token, numbers of store/origin events')
+            for kp in kprob[:1]:
+                res['errors'].append('extraction cross-check: ' + kp)
         parts = r.get('projection', spec.get('projection', ['outcome', 'ncalls']))
         mkeys = r.get('monitors', spec.get('monitors', [pid]))
         dist = res['distribution']
